@@ -251,8 +251,9 @@ def chisq(ix, R):
             'the forward model is evaluated on the observation grid and binned by the observation binner',
             not why, key='; '.join(why), detail='; '.join(why), loc=f.loc(m.node))
     # 3.3 chi2 formula
-    r = [e for e in fl.of('return') if not any(g.test is None for g in e.guards)]
-    r = one([e for e in r if 'nan' not in unparse(e.value_ast) or True][-1:], 'final return')
+    # the value the function comes to outside the exception handler (one return, or several merged by their conditions)
+    r = the_return(fl, 'return outside the exception handler',
+                   rets=[e for e in fl.of('return') if not any(g.test is None for g in e.guards)])
     binned = fl.tab.atom('idx', (fl.tab.atom('call', tuple(bm.args), extra=('fn:self._binner.bin_model',)),
                                  fl.tab.const(1)))
     b = dict(pe, obs=code(fl, 'self._observed.spectrum'), B=binned)
@@ -262,7 +263,7 @@ def chisq(ix, R):
     for chi in (chi_n, chi_s):
         for w in (chi, spec(fl, '_guard(chi == 0, nan, chi)', {'chi': chi, 'nan': spec(fl, 'np.nan')})):
             okf = okf or fl.tab.equal(r.value, w)
-    okf = okf and not [g for g in r.guards if not g.early] and not r.loops
+    okf = okf and not [g for g in getattr(r, 'guards', ()) if not g.early] and not getattr(r, 'loops', ())
     R.check('3.chi', 'ALG', site, 'chi2 = sum(((observed - binned model)/sigma)^2), binned model = bin_model(...)[1]',
             okf, key='returns %s' % fmt(fl, r.value), detail='returns %s' % fmt(fl, r.value),
             loc=f.loc(r.node), extracted=fmt(fl, r.value))
